@@ -25,7 +25,10 @@ import (
 	"sort"
 	"strings"
 
+	api "k8s.io/api/core/v1"
+
 	"verif/harness/lib/c07"
+	"verif/harness/lib/cfgnorm"
 	"verif/harness/lib/hx"
 	"verif/harness/lib/pipeline"
 	"verif/harness/lib/world"
@@ -63,6 +66,11 @@ func run(o c07.Opt, h [][]pipeline.Change, upto int) ([]state, error) {
 		st.cfg, st.scanErr = c07.Scan(p.Dir(), p.Prefix())
 		if st.scanErr == nil {
 			st.findings = c07.Check(st.cfg)
+			// cross-check with the independent parser of lib/cfgnorm: whatever it calls a
+			// problem (missing file, duplicated backend, stray line) must be a finding here
+			if nf, err := cfgnorm.Load(p.Dir(), p.Prefix()); err == nil && len(nf.Problems) > 0 && len(st.findings) == 0 {
+				st.findings = append(st.findings, c07.Finding{Kind: "cfgnorm-problem-missed-by-scan", What: strings.Join(nf.Problems, "; ")})
+			}
 		}
 		out = append(out, st)
 	}
@@ -95,20 +103,47 @@ var (
 	reNum     = regexp.MustCompile(`\d+`)
 )
 
+// strictHost tells whether a global ConfigMap of the history sets strict-host=true.
+func strictHost(h [][]pipeline.Change) bool {
+	for _, b := range h {
+		for _, c := range b {
+			if cm, ok := c.Obj.(*api.ConfigMap); ok && cm.Data["strict-host"] == "true" {
+				return true
+			}
+		}
+	}
+	return false
+}
+
+var reRootKey = regexp.MustCompile(`key \S+#/ names backend "(ns\d_[^"]+)"`)
+
 // keyOf names the cause of a finding. The kind is the class of broken reference; the
 // detail generalises names (backends, numbers) away so that the key is stable across
 // seeds while two different causes never share a key.
-func keyOf(f c07.Finding) string {
+func keyOf(f c07.Finding, strict bool) string {
 	detail := ""
 	switch f.Kind {
 	case "dangling-map-backend":
-		// which map family, and whether the value is empty
+		// which map family, and what kind of value
 		m := regexp.MustCompile(`(_front_[a-z_]+?|_tcp_[a-z_]+?|_back_[^ ]*?)(__[a-z_0-9]+)?\.map`).FindStringSubmatch(f.What)
 		if m != nil {
 			detail = reNum.ReplaceAllString(m[1], "N")
 		}
-		if strings.Contains(f.What, `names backend ""`) {
+		if strict && strings.HasPrefix(detail, "_front_http") && reRootKey.MatchString(f.What) {
+			// strict-host: SyncConfig points the root path of a host without one to the root
+			// backend of the default host (or to the default backend) when the host is built
+			// and never looks at it again
+			return "C07/dangling-map-backend-strict-host-borrowed-root-backend-removed"
+		}
+		v := regexp.MustCompile(`names backend "([^"]*)"`).FindStringSubmatch(f.What)
+		switch {
+		case v == nil:
+		case v[1] == "":
 			detail += ":empty-value"
+		case reBackend.MatchString(v[1]):
+			detail += ":service-backend"
+		default:
+			detail += ":" + reNum.ReplaceAllString(v[1], "N")
 		}
 	case "dangling-use-backend", "dangling-default-backend", "dangling-auth-backend", "duplicate-backend-section":
 		w := strings.SplitN(f.What, ":", 2)[0] // "<kind> <section name>"
@@ -121,9 +156,9 @@ func keyOf(f c07.Finding) string {
 	return "C07/" + f.Kind
 }
 
-func hasKey(fs []c07.Finding, key string) (c07.Finding, bool) {
+func hasKey(fs []c07.Finding, key string, strict bool) (c07.Finding, bool) {
 	for _, f := range fs {
-		if keyOf(f) == key {
+		if keyOf(f, strict) == key {
 			return f, true
 		}
 	}
@@ -255,7 +290,7 @@ func main() {
 	defer os.RemoveAll(workdir)
 	rng := o.Rng()
 	res := hx.NewResult("C07", "oracle + checker: histories (corpus of past failures, a dedicated generator: missing services/secrets, services without endpoints, ssl-passthrough, basic/external/oauth auth, TCP services by annotation and ConfigMap, strict-host, absent/missing/deleted default backend, pod/ip server naming with pods named like empty slots, blue/green, server ids, per-path ACL features, secure backends, client certs, tiny auth-proxy ranges, shards; and lib/world Full() histories) through the real watchers+converter+instance; after EVERY reconciliation the written files are scanned raw and analysed (Go) and the structure is checked by `wellformed` inside Coq; plus direct runs of AddEndpoint/AddEmptyEndpoint, AddBackendPath, AcquireAuthBackendName/RemoveAuthBackend* on the real types compared with their models; non-trivial = a written configuration with at least two backend sections and one map value feeding a dynamic use_backend, or a generator case with at least 3 calls; distinct by canonical text of the scanned structure / of the calls")
-	cw := hx.NewCaseWriter(o, res, "From HI Require Import Corr.Corr_C07.", "c07case", 24)
+	cw := hx.NewCaseWriter(o, res, "From HI Require Import Corr.Corr_C07.", "c07case", 12)
 
 	var scens []scen
 	var units []genInput
@@ -318,6 +353,8 @@ func main() {
 	}
 
 	// ---- histories through the real pipeline ----
+	// every state of the first maxCoq histories goes through the verified checker inside Coq
+	maxCoq := o.Count(100000, 2500)
 	reported := map[string]bool{}
 	for si, sc := range scens {
 		states, err := run(sc.opt, sc.h, -1)
@@ -328,6 +365,8 @@ func main() {
 		}
 		res.Count("histories_" + strings.SplitN(sc.origin, ":", 2)[0])
 		res.Count(fmt.Sprintf("history_batches=%d", len(sc.h)))
+		strict := strictHost(sc.h)
+		var coqStates []string
 		for bi, st := range states {
 			res.OracleChecks++
 			if st.applyErr != nil {
@@ -348,17 +387,12 @@ func main() {
 				res.Sample(5, map[string]interface{}{"origin": sc.origin, "options": sc.opt, "history": describe(sc.h), "written": st.cfg.Summary(), "findings": st.findings})
 			}
 			if !o.Search {
-				cfg, ok := st.cfg, len(st.findings) == 0
-				hist := sc.h[:bi+1]
-				opt := sc.opt
-				cw.Add(func(id int) string {
-					return fmt.Sprintf("(CCfg %s %s %s)", hx.N(id), cfg.Coq(), hx.Bool(ok))
-				}, map[string]interface{}{"kind": "scenario", "scenario": c07.Scenario{Opt: opt, History: world.EncodeHistory(hist)}, "batch": bi})
+				coqStates = append(coqStates, hx.Tuple(st.cfg.Coq(), hx.Bool(len(st.findings) == 0)))
 			}
 			// findings: shrink the first history showing each cause
 			seenHere := map[string]bool{}
 			for _, f := range st.findings {
-				key := keyOf(f)
+				key := keyOf(f, strict)
 				res.Count("finding_" + f.Kind)
 				if seenHere[key] {
 					continue
@@ -378,7 +412,7 @@ func main() {
 							return false
 						}
 						for _, s := range sts {
-							if _, ok := hasKey(s.findings, key); ok {
+							if _, ok := hasKey(s.findings, key, strict); ok {
 								return true
 							}
 						}
@@ -388,7 +422,7 @@ func main() {
 				what := f.What
 				if sts, err := run(sc.opt, min, -1); err == nil {
 					for _, s := range sts {
-						if g, ok := hasKey(s.findings, key); ok {
+						if g, ok := hasKey(s.findings, key, strict); ok {
 							what = g.What
 							break
 						}
@@ -398,6 +432,14 @@ func main() {
 					Input:    genInput{Kind: "scenario", Scen: &c07.Scenario{Opt: sc.opt, History: world.EncodeHistory(min), Origin: sc.origin}},
 					Observed: c07.Kinds(st.findings)})
 			}
+		}
+		if !o.Search && len(coqStates) > 0 && si < maxCoq {
+			cs := coqStates
+			cw.Add(func(id int) string {
+				return fmt.Sprintf("(CCfg %s %s)", hx.N(id), hx.List(cs))
+			}, input)
+			res.Count("coq_checked_configurations_total_states")
+			res.Distribution["coq_checked_configurations_total_states"] += len(cs) - 1
 		}
 	}
 
